@@ -41,6 +41,18 @@ CLAIMS = {
        "Tie: histories with up to 4 handles interleaved with removals of siblings with two children, slot-reusing creations, overwrites, resizes across 4096; compared after every call at levels O, D (hook H3) and H (all window fields of all handles); the harness checks stream_id = slot of the path on the implementation (binding oracle).",
   note="Same-stream double handles and use-after-removal are out of scope. Content below the entry (sectors) is lock-step only. Trusted base as C01/C06.",
   design="§3 C07"),
+ "C05": dict(
+  technique="Lean 4 proof that the reader model — a loop-for-loop port of open_internal and the three validate()s with an explicit panic exit at every unchecked index and a fuelled hang exit at every loop — reaches none of those exits for any byte string (pigeonhole on the seen/visited sets; injectivity of the validated FAT makes 'back at the first sector' the only possible cycle) + differential replay on malformed inputs",
+  text="Proof: CfbVerif.Props.C05 — C05_open_total: for every byte string and both modes open() neither panics nor hangs (header, DIFAT loop, FAT load/trim, Allocator::validate, directory chain loop, Directory::validate DFS, MiniFAT chain walk/load, MiniAllocator::validate); C05_chain_walk_total: every chain walk on a validated FAT terminates although Chain::new only tests the first id; seeks with any argument never panic (C06_seek_total). "
+       "Tie: the Raw model is run against the real reader on the repository's fuzz regression files and on thousands of field-level corruptions (both modes, worker thread with watchdog and panic capture): accept/reject, error kind and the full logical dump (walk + every stream's bytes) must agree; seeks with extreme arguments and buffered reads are exercised on every stream of every accepted malformed file.",
+  note="Partial: walk/lookup/whole-stream reads after open are not yet proved panic/hang-free (lock-step only); memory is bounded only through table sizes. Trusted: Lean kernel, standard axioms, translator, harness generators, the Raw model's fidelity (checked by lock-step incl. error kinds).",
+  design="§3 C05"),
+ "C16": dict(
+  technique="Lean 4 proof by stage-wise simulation: the strict and permissive runs of the reader model are the same program up to guards, so strict success implies permissive success with identical tables; mode-dependent normalisations (zero-padding strips) are shown to be no-ops on what strict accepts + deviation-injection oracle and lock-step",
+  text="Proof: CfbVerif.Props.C16 — C16_sub: for every byte string, open_strict = ok r implies open = ok r with the same FAT, DIFAT, directory and MiniFAT (hence the same tree, metadata and bytes); assembled from per-component lemmas for header, directory entries, Allocator/Directory/MiniAllocator validation and the DIFAT/FAT normalisations (C16_components, normFat_eq, normDifat_eq). "
+       "Tie: each documented deviation is injected at every applicable place of valid images, singly and combined: permissive dump must equal the undamaged dump and strict must answer InvalidData (oracle); all images (valid, deviated, corrupted) are opened in both modes by the crate and by the model and compared.",
+  note="Zero-padded DIFAT / unmarked DIFAT sectors need files with > 109 FAT sectors: thorough tier only. Trusted base as C05.",
+  design="§3 C16"),
 }
 
 def main():
